@@ -16,6 +16,16 @@ CHECKS = {
              'Any sanitizer report, undocumented exception type, or reproducible non-termination is a violation.',
         note='Trusted: clang ASan/UBSan (object-size and nonnull-attribute sub-checks excluded, see DESIGN §3). Red-zone limits apply; only paths the corpus and mutations reach are covered. '
              'continue-after-fatal-error is documented as undetermined behaviour and is excluded from the oracle; parameter-entity expansion is not bounded (see C19 finding).'),
+    'C17': dict(
+        category='exploration', design_ref='DESIGN.md §4 C17',
+        technique='runtime monitoring: ThreadSanitizer on a multi-threaded stress workload with seeded yield injection at mutex and lazy-initialisation hooks, digest comparison with a single-threaded run, deadlock watchdog',
+        text='Many short processes (4-16 threads) are released by a barrier onto the same not-yet-used facility and then draw seeded work items: private parsers (DTD validation), SAX2 and DOM '
+             'parsers on one shared LOCKED grammar pool (new namespace URIs, not-yet-built content models, pattern facets), private DOM build/serialise, owner-less DocumentType nodes, '
+             'DOMImplementationRegistry lookups, regular expressions with category/block escapes, local-code-page and named transcoders, exception message loading. Hooks at XMLMutexLock and at '
+             'the lazy-initialisation sites inject yields between critical sections and inside first-use windows and count overlapped windows; every TSan report (de-duplicated by root cause), '
+             'crash, twice-confirmed hang or digest difference against the single-threaded run is a violation.',
+        note='Trusted: ThreadSanitizer (happens-before over the executions produced; ICU/libstdc++ uninstrumented). Reports rooted in the two KNOWN lazy-content-model findings are suppressed in the '
+             'bulk processes (TSan suppressions by function) and re-observed in a few unsuppressed ones.'),
     'C18': dict(
         category='fault_enumeration', design_ref='DESIGN.md §4 C18',
         technique='runtime monitoring: ledger MemoryManager (exact alloc/free bookkeeping, per parser and global) + LeakSanitizer, over an enumeration of every way a parse can end',
